@@ -109,8 +109,28 @@ package bluemonday
 //@   sets sanRes = result
 //@   ensures[C02] attrsGood(p, elementName, result)
 //@   ensures[C03] p.requireParseableURLs ==> urlsOK(p, elementName, result)
+//@   ensures[C11] link3(elementName) && hasKey(result, "href") && (p.requireNoFollow || (p.requireNoFollowFullyQualifiedLinks && extHref(result))) ==> hasKey(result, "rel") && relsHave(result, "nofollow")
+//@   ensures[C11] link3(elementName) && hasKey(result, "href") && (p.requireNoReferrer || (p.requireNoReferrerFullyQualifiedLinks && extHref(result))) ==> hasKey(result, "rel") && relsHave(result, "noreferrer")
+//@   ensures[C11] elementName == "a" && p.addTargetBlankToFullyQualifiedLinks && extHref(result) ==> hasKey(result, "target") && firstTargetBlank(result)
+//@   ensures[C11] elementName == "a" && linkOpts(p) && hasKey(result, "href") && hasBlankTarget(result) ==> hasKey(result, "rel") && relsHave(result, "noopener")
 //@   ensures[C12] p.requireCrossOriginAnonymous && coEl(elementName) && len(result) > 0 ==> hasKey(result, "crossorigin") && (forall i int :: 0 <= i && i < len(result) && result[i].Key == "crossorigin" ==> result[i].Val == "anonymous")
 //@   ensures[C12] p.requireSandboxOnIFrame != nil && elementName == "iframe" && len(result) > 0 ==> hasKey(result, "sandbox") && (forall i int :: 0 <= i && i < len(result) && result[i].Key == "sandbox" ==> sandboxOK(p, result[i].Val))
+//@   before "if targetBlankFound {"
+//@     lemma[C11] hasKey(cleanAttrs, "href") && (extHref(cleanAttrs) <==> externalLink)
+//@     lemma[C11] addNoFollow ==> hasKey(cleanAttrs, "rel") && relsHave(cleanAttrs, "nofollow")
+//@     lemma[C11] addNoReferrer ==> hasKey(cleanAttrs, "rel") && relsHave(cleanAttrs, "noreferrer")
+//@     lemma[C11] elementName == "a" && addTargetBlank ==> hasKey(cleanAttrs, "target") && firstTargetBlank(cleanAttrs)
+//@     lemma[C11] targetBlankFound <==> (elementName == "a" && hasBlankTarget(cleanAttrs))
+//@   before "if p.requireCrossOriginAnonymous && len(cleanAttrs) > 0"
+//@     lemma[C11] link3(elementName) && hasKey(cleanAttrs, "href") && (p.requireNoFollow || (p.requireNoFollowFullyQualifiedLinks && extHref(cleanAttrs))) ==> hasKey(cleanAttrs, "rel") && relsHave(cleanAttrs, "nofollow")
+//@     lemma[C11] link3(elementName) && hasKey(cleanAttrs, "href") && (p.requireNoReferrer || (p.requireNoReferrerFullyQualifiedLinks && extHref(cleanAttrs))) ==> hasKey(cleanAttrs, "rel") && relsHave(cleanAttrs, "noreferrer")
+//@     lemma[C11] elementName == "a" && p.addTargetBlankToFullyQualifiedLinks && extHref(cleanAttrs) ==> hasKey(cleanAttrs, "target") && firstTargetBlank(cleanAttrs)
+//@     lemma[C11] elementName == "a" && linkOpts(p) && hasKey(cleanAttrs, "href") && hasBlankTarget(cleanAttrs) ==> hasKey(cleanAttrs, "rel") && relsHave(cleanAttrs, "noopener")
+//@   before "if p.requireSandboxOnIFrame != nil && elementName"
+//@     lemma[C11] link3(elementName) && hasKey(cleanAttrs, "href") && (p.requireNoFollow || (p.requireNoFollowFullyQualifiedLinks && extHref(cleanAttrs))) ==> hasKey(cleanAttrs, "rel") && relsHave(cleanAttrs, "nofollow")
+//@     lemma[C11] link3(elementName) && hasKey(cleanAttrs, "href") && (p.requireNoReferrer || (p.requireNoReferrerFullyQualifiedLinks && extHref(cleanAttrs))) ==> hasKey(cleanAttrs, "rel") && relsHave(cleanAttrs, "noreferrer")
+//@     lemma[C11] elementName == "a" && p.addTargetBlankToFullyQualifiedLinks && extHref(cleanAttrs) ==> hasKey(cleanAttrs, "target") && firstTargetBlank(cleanAttrs)
+//@     lemma[C11] elementName == "a" && linkOpts(p) && hasKey(cleanAttrs, "href") && hasBlankTarget(cleanAttrs) ==> hasKey(cleanAttrs, "rel") && relsHave(cleanAttrs, "noopener")
 //@   loop 1 "for _, htmlAttr := range attrs"
 //@     invariant[C02] attrsAdm(p, elementName, cleanAttrs)
 //@   loop 4 "for _, htmlAttr := range cleanAttrs"
@@ -118,19 +138,57 @@ package bluemonday
 //@     invariant[C02] attrsGood(p, elementName, tmpAttrs)
 //@     invariant[C03] urlsOK(p, elementName, tmpAttrs)
 //@     invariant forall i int :: 0 <= i && i < len(cleanAttrs) ==> cleanAttrs[i] == pre(cleanAttrs[i])
+//@   loop 5 "for _, htmlAttr := range cleanAttrs"
+//@     invariant[C11] hrefFound <==> (exists i int :: 0 <= i && i <= rangeindex && cleanAttrs[i].Key == "href")
+//@     invariant[C11] externalLink <==> (exists i int :: 0 <= i && i <= rangeindex && cleanAttrs[i].Key == "href" && hasHost(cleanAttrs[i].Val))
+//@     invariant[C11] rangeindex < len(cleanAttrs)
+//@     after[C11] (hrefFound <==> hasKey(cleanAttrs, "href")) && (externalLink <==> extHref(cleanAttrs))
 //@   loop 6 "for _, htmlAttr := range cleanAttrs"
+//@     invariant[C11] len(tmpAttrs) == rangeindex + 1 && rangeindex < len(cleanAttrs)
+//@     invariant[C11] forall i int :: 0 <= i && i <= rangeindex ==> tmpAttrs[i].Key == cleanAttrs[i].Key && (cleanAttrs[i].Key != "rel" && cleanAttrs[i].Key != "target" ==> tmpAttrs[i].Val == cleanAttrs[i].Val)
+//@     invariant[C11] addNoFollow ==> relsHave(tmpAttrs, "nofollow")
+//@     invariant[C11] addNoReferrer ==> relsHave(tmpAttrs, "noreferrer")
+//@     invariant[C11] noFollowFound <==> (addNoFollow && (exists i int :: 0 <= i && i <= rangeindex && cleanAttrs[i].Key == "rel"))
+//@     invariant[C11] noReferrerFound <==> (addNoReferrer && (exists i int :: 0 <= i && i <= rangeindex && cleanAttrs[i].Key == "rel"))
+//@     invariant[C11] targetBlankFound <==> (elementName == "a" && hasBlankTarget(tmpAttrs))
+//@     invariant[C11] elementName == "a" && addTargetBlank ==> firstTargetBlank(tmpAttrs)
+//@     invariant[C11] !targetBlankFound ==> (forall i int :: 0 <= i && i <= rangeindex && cleanAttrs[i].Key == "target" ==> tmpAttrs[i].Val == cleanAttrs[i].Val)
+//@     invariant[C11] !noFollowFound && !noReferrerFound ==> (forall i int :: 0 <= i && i <= rangeindex && cleanAttrs[i].Key == "rel" ==> tmpAttrs[i].Val == cleanAttrs[i].Val)
+//@     after[C11] !targetBlankFound ==> !(elementName == "a" && hasBlankTarget(cleanAttrs))
+//@     after[C11] sameKeys(tmpAttrs, cleanAttrs) && sameValsExcept(tmpAttrs, cleanAttrs, "rel", "target")
+//@     after[C11] (hasKey(tmpAttrs, "href") <==> hasKey(cleanAttrs, "href")) && (extHref(tmpAttrs) <==> extHref(cleanAttrs)) && (hasKey(tmpAttrs, "rel") <==> hasKey(cleanAttrs, "rel")) && (hasKey(tmpAttrs, "target") <==> hasKey(cleanAttrs, "target"))
+//@     after[C11] (noFollowFound <==> (addNoFollow && hasKey(cleanAttrs, "rel"))) && (noReferrerFound <==> (addNoReferrer && hasKey(cleanAttrs, "rel")))
 //@     invariant[C02] attrsGood(p, elementName, cleanAttrs)
 //@     invariant[C02] attrsGood(p, elementName, tmpAttrs)
 //@     invariant[C03] p.requireParseableURLs ==> urlsOK(p, elementName, cleanAttrs)
 //@     invariant[C03] p.requireParseableURLs ==> urlsOK(p, elementName, tmpAttrs)
 //@     invariant forall i int :: 0 <= i && i < len(cleanAttrs) ==> cleanAttrs[i] == pre(cleanAttrs[i])
 //@   loop 7 "for _, htmlAttr := range cleanAttrs"
+//@     invariant[C11] len(tmpAttrs) == rangeindex + 1 && rangeindex < len(cleanAttrs)
+//@     invariant[C11] forall i int :: 0 <= i && i <= rangeindex ==> tmpAttrs[i].Key == cleanAttrs[i].Key && (cleanAttrs[i].Key != "rel" ==> tmpAttrs[i].Val == cleanAttrs[i].Val)
+//@     invariant[C11] relsHave(tmpAttrs, "noopener")
+//@     invariant[C11] relsHave(cleanAttrs, "nofollow") ==> relsHave(tmpAttrs, "nofollow")
+//@     invariant[C11] relsHave(cleanAttrs, "noreferrer") ==> relsHave(tmpAttrs, "noreferrer")
+//@     invariant[C11] noOpenerAdded <==> (exists i int :: 0 <= i && i <= rangeindex && cleanAttrs[i].Key == "rel")
+//@     invariant[C11] firstTargetBlank(cleanAttrs) ==> firstTargetBlank(tmpAttrs)
+//@     after[C11] sameKeys(tmpAttrs, cleanAttrs) && sameValsExcept(tmpAttrs, cleanAttrs, "rel", "rel")
+//@     after[C11] (hasKey(tmpAttrs, "href") <==> hasKey(cleanAttrs, "href")) && (extHref(tmpAttrs) <==> extHref(cleanAttrs)) && (hasKey(tmpAttrs, "rel") <==> hasKey(cleanAttrs, "rel")) && (hasKey(tmpAttrs, "target") <==> hasKey(cleanAttrs, "target")) && (hasBlankTarget(tmpAttrs) <==> hasBlankTarget(cleanAttrs))
+//@     after[C11] noOpenerAdded <==> hasKey(cleanAttrs, "rel")
 //@     invariant[C02] attrsGood(p, elementName, cleanAttrs)
 //@     invariant[C02] attrsGood(p, elementName, tmpAttrs)
 //@     invariant[C03] p.requireParseableURLs ==> urlsOK(p, elementName, cleanAttrs)
 //@     invariant[C03] p.requireParseableURLs ==> urlsOK(p, elementName, tmpAttrs)
 //@     invariant forall i int :: 0 <= i && i < len(cleanAttrs) ==> cleanAttrs[i] == pre(cleanAttrs[i])
 //@   loop 8 "for i, htmlAttr := range cleanAttrs"
+//@     invariant[C11] forall i int :: 0 <= i && i < len(cleanAttrs) ==> cleanAttrs[i].Key == pre(cleanAttrs[i].Key) && (cleanAttrs[i].Key != "crossorigin" ==> cleanAttrs[i].Val == pre(cleanAttrs[i].Val))
+//@     after[C11] hasKey(cleanAttrs, "href") ==> pre(hasKey(cleanAttrs, "href"))
+//@     after[C11] pre(hasKey(cleanAttrs, "href")) ==> hasKey(cleanAttrs, "href")
+//@     after[C11] extHref(cleanAttrs) ==> pre(extHref(cleanAttrs))
+//@     after[C11] pre(extHref(cleanAttrs)) ==> extHref(cleanAttrs)
+//@     after[C11] pre(hasKey(cleanAttrs, "rel")) ==> hasKey(cleanAttrs, "rel")
+//@     after[C11] pre(relsHave(cleanAttrs, "nofollow")) ==> relsHave(cleanAttrs, "nofollow")
+//@     after[C11] pre(relsHave(cleanAttrs, "noreferrer")) ==> relsHave(cleanAttrs, "noreferrer")
+//@     after[C11] pre(relsHave(cleanAttrs, "noopener")) ==> relsHave(cleanAttrs, "noopener")
 //@     invariant[C12] crossOriginFound <==> (exists i int :: 0 <= i && i <= rangeindex && cleanAttrs[i].Key == "crossorigin")
 //@     invariant[C12] forall i int :: 0 <= i && i <= rangeindex && cleanAttrs[i].Key == "crossorigin" ==> cleanAttrs[i].Val == "anonymous"
 //@     invariant[C12] rangeindex < len(cleanAttrs)
@@ -162,3 +220,9 @@ package bluemonday
 //@ func bluemonday.linkable
 //@   modifies nothing
 //@   ensures result <==> (elementName == "a" || elementName == "area" || elementName == "base" || elementName == "link" || elementName == "blockquote" || elementName == "del" || elementName == "ins" || elementName == "q" || elementName == "audio" || elementName == "embed" || elementName == "iframe" || elementName == "img" || elementName == "input" || elementName == "script" || elementName == "source" || elementName == "track" || elementName == "video")
+
+//@ func bluemonday.hasRelToken
+//@   modifies nothing
+//@   ensures result == hasTok(rel, token)
+//@   loop 0 "for _, t := range strings.Fields(rel)"
+//@     invariant forall j int :: 0 <= j && j <= rangeindex ==> !strings.EqualFold(at(fieldsArr(rel), 0, j), token)
